@@ -18,6 +18,7 @@ func init() {
 	register(&Prop{ID: "C06", Run: runC06,
 		Technique: "static analysis: writer/reader constant agreement (layout vs sort-key regexp evaluated on the extracted constants), interprocedural value-flow of glob patterns and destructive paths, dominance guards (go/ssa)",
 		Decided: []string{
+			"the history store derives days from the wall clock the file names carry: no Truncate/Round to 24h or more, no UTC()/In() (C06.day-is-calendar-day)",
 			"the sort key extracted from a history file name distinguishes two runs that differ in the finest unit of the layout the name is written with; the date-only layout is a prefix of it (C06.key-covers-layout)",
 			"DAG-name-derived text reaching filepath.Glob passes through a glob-escaping function (C06.glob-injection)",
 			"every os.Remove/Rename in the history store acts on a path derived from the DAG file argument of the operation (C06.isolation)",
@@ -38,6 +39,7 @@ func init() {
 
 func runC06(e *Env) {
 	c06KeyCoversLayout(e)
+	c06CalendarDay(e)
 	c06Glob(e)
 	c06Isolation(e)
 	c06Retention(e)
@@ -74,7 +76,7 @@ func (e *Env) globalRegexp(rel, name string) (string, bool) {
 
 func c06KeyCoversLayout(e *Env) {
 	r := e.R
-	r.Rule("C06.key-covers-layout", "AGR", "sort key distinguishes instants the file-name layout distinguishes", 2)
+	r.Rule("C06.key-covers-layout", "AGR", "sort key distinguishes instants the file-name layout distinguishes", 1)
 	// by role: the file-name layout is the longest constant layout given to
 	// time.Format in the history store; the sort-key function is the one that
 	// applies a package-level regexp with FindString
